@@ -274,7 +274,8 @@ def coq_slice_case(c, o):
             coq_bool(len(main["v_shape"]) == 2 and len(main["f_shape"]) == 2 and (not ret or len(main["map_shape"]) == 1)),
             coq_bool(main["v_dtype"] == "float64"), coq_bool(main["f_dtype"] == "int64"),
             coq_bool((not ret) or main["map_dtype"] == "int64"))
-    return "%s %s %s %s %s %s %s" % ("CSliceZ" if neg else "CSlice", vs, fs, qv(c["ref"]), qv(c["normal"]), mask, obs)
+    vdt = {"float64": "VF64", "float32": "VF32", "float16": "VF16"}.get(c.get("vdtype", "float64"), "VInt")
+    return "%s %s %s %s %s %s %s" % ("CSliceZ" if neg else "CSlice " + vdt, vs, fs, qv(c["ref"]), qv(c["normal"]), mask, obs)
 
 
 # ---- exact arithmetic helpers for the oracles -------------------------------------------------------------------
